@@ -368,7 +368,9 @@ SPEC = {
             "bind-group attributes, arrays, function template, namespace, overloads, default / out / inout parameters, every "
             "statement form, casts, swizzles, intrinsics) + resource/pipeline programs + the literal stream (numeric literals of "
             "every suffix: 20-30 digit decimals, shortest 15-17 digit doubles, over-long expansions, exponent forms, subnormal / huge "
-            "magnitudes, -0.0, integer limits, hex; as global / local initialisers, call arguments, operands and array sizes) + the "
+            "magnitudes, -0.0, integer limits, hex, floats / halves written with the 15-17 digits of their value as a double and "
+            "the float whose shortest digits are read back as its neighbour (fix 265a080); as global / local initialisers, call "
+            "arguments, operands and array sizes) + the "
             "repository's inputs under tests/; each compiled for DirectX in no-pipeline mode and the emitted text compiled again; "
             "the second generation must be accepted, byte-identical and keep every binding slot. C04.reelab: scalar programs of "
             "C01's generator + fixed sources; real first IR -> real emitted text -> real front end again; the model predicts the "
